@@ -116,7 +116,16 @@ pub fn tier_b(max_list: usize) -> Vec<Wire> {
             for e in errs.iter().step_by(37) {
                 let mut e = e.clone();
                 e.index = d.len() as u64;
-                out.push(Wire::ListErr { done: d.clone(), partial: p.clone(), err: e });
+                out.push(Wire::ListErr { done: d.clone(), partial: p.clone(), err: e.clone() });
+                // (round 7) the index is a number the server encoded, not something the frames depend on: a
+                // server that counts differently (index 0, or beyond the frames) changes nothing else
+                if !d.is_empty() && p.fields.is_empty() && p.binary.is_none() {
+                    for idx in [0u64, d.len() as u64 - 1, d.len() as u64 + 2] {
+                        let mut e2 = e.clone();
+                        e2.index = idx;
+                        out.push(Wire::ListErr { done: d.clone(), partial: p.clone(), err: e2 });
+                    }
+                }
             }
         }
     }
